@@ -22,7 +22,8 @@ FailProp(o) == IF Has(o.case, "failprop") THEN o.case.failprop ELSE "C20"
 
 StatusVerdicts(o) ==
   LET exp == IF Has(o.case, "expect") THEN o.case.expect ELSE "ok" IN
-  IF exp = "ok" /\ o.status # 200 THEN {Fail(FailProp(o), "rejected", "")}
+  IF Has(o, "answered") /\ ~o.answered THEN {Fail(FailProp(o), "no-answer", ""), Fail("C20", "no-answer", "")}
+  ELSE IF exp = "ok" /\ o.status # 200 THEN {Fail(FailProp(o), "rejected", "")}
   ELSE IF exp = "reject" /\ o.status = 200 THEN {Fail(FailProp(o), "accepted", "")}
   ELSE {}
 
